@@ -745,9 +745,11 @@ def c19(tier, seed, work):
     viols, fams, races, diffs, compared = [], [], 0, 0, 0
 
     def run(kind, kw, name, workers):
+        # the baseline is each workload truly alone: a process of its own per script (16 at a time)
+        iso = workers == 1
         if kind == "hs":
-            return F.handshake_family(work, name=name, workers=workers, race=True, **kw)
-        return F.walk_family(work, name=name, workers=workers, race=True, **kw)
+            return F.handshake_family(work, name=name, workers=16 if iso else workers, race=not iso, isolate=iso, **kw)
+        return F.walk_family(work, name=name, workers=16 if iso else workers, race=not iso, isolate=iso, **kw)
 
     jobs = [(idx, kind, kw, n) for idx, (kind, kw) in enumerate(specs) for n in [1] + ns]
     with cf.ThreadPoolExecutor(max_workers=4) as ex:
